@@ -325,9 +325,16 @@ def overflow_discharged(prog, body, site, iv=None):
         ok = tr[0] <= r[0] and r[1] <= tr[1]
         return ok, "%s of [%d,%d] and [%d,%d] = [%d,%d] vs %s" % (op, a[0], a[1], b[0], b[1], r[0], r[1], body.types[tix]["n"])
     if m["kind"] in ("DivisionByZero", "RemainderByZero"):
-        a = iv.of_operand(m["a"])
-        if a and (a[0] > 0 or a[1] < 0):
-            return True, "divisor in [%d,%d]" % a
+        # the assert message carries the dividend; the condition is `divisor == 0` (expected false)
+        cond = t[1]
+        pl = F.op_place(cond)
+        r = dep.single_def_rvalue(body, pl[0]) if pl is not None and not pl[1] else None
+        if r is not None and r[1][0] == "bin" and r[1][1] == "Eq":
+            for d, z in ((r[1][2], r[1][3]), (r[1][3], r[1][2])):
+                if F.const_int(z) == 0:
+                    a = iv.of_operand(d)
+                    if a and (a[0] > 0 or a[1] < 0):
+                        return True, "divisor in [%d,%d]" % a
         return False, "divisor may be 0"
     if m["kind"] == "BoundsCheck":
         ln, ix = iv.of_operand(m["len"]), iv.of_operand(m["index"])
